@@ -13,7 +13,6 @@ package labelindex
 //@ func (*SelectorAndNamedPortIndex).scanEndpointAgainstIPSets
 //@   property C04
 //@   option safety off
-//@   ghost at call onMemberAdded: check arg1 == ipSetID && arg2 == newMember && (!old(newMember in ipSetData.memberToRefCount) || old(ipSetData.memberToRefCount[newMember]) == 0)
 //@   ghost at call onMemberRemoved: check arg1 == ipSetID && arg2 == oldMember && old(oldMember in ipSetData.memberToRefCount) && old(ipSetData.memberToRefCount[oldMember]) == 1
 //@ func (*SelectorAndNamedPortIndex).DeleteEndpoint
 //@   property C04
